@@ -649,6 +649,34 @@ fn c12_oracle(ctx: &Ctx) -> Vec<Violation> {
                 }
             }
         }
+        Lang::TypeScript => {
+            // A Date (or mapped Uint8Array) field only survives JSON through the reviver / replacer pair typeshare writes
+            // next to the types. The reviver is keyed by field name, so this is demanded where the back end can address
+            // the value: a struct field or struct-variant field that is the special type itself, possibly optional
+            // (Option, Option<Option>, transparent wrappers). Nothing is demanded for dates inside Vec / HashMap / arrays.
+            let mut direct: Vec<(String, &'static str)> = vec![];
+            for (_, _, fields, _, _) in containers(ctx.items) {
+                for fl in fields.iter().filter(|f| !f.skipped()) {
+                    let mut t = fl.ty.peel();
+                    while let Ty::Opt(i) = t {
+                        t = i.peel();
+                    }
+                    if matches!(t, Ty::DateTime) {
+                        direct.push((fl.name.clone(), "Date"));
+                    }
+                }
+            }
+            if let Some((fname, special)) = direct.first() {
+                if uses.iter().any(|(n, _)| n == special) {
+                    for helper in ["ReviverFunc", "ReplacerFunc"] {
+                        let defined = ctx.text.contains(&format!("export const {helper} =")) || ctx.text.contains(&format!("export function {helper}("));
+                        if !defined {
+                            out.push(Violation::new(format!("ts/helper-undefined/{helper}/{special}"), format!("typescript: field `{fname}` is a `{special}` but `{helper}` is not defined in the output")));
+                        }
+                    }
+                }
+            }
+        }
         Lang::Go => {
             let imported: Vec<&str> = f.imports.iter().map(|i| i.module.rsplit('/').next().unwrap_or("")).collect();
             for (n, pos) in &uses {
@@ -714,9 +742,35 @@ fn c12_gen() -> GenCfg {
     g.rename_all = false;
     g.variant_renames = false;
     g.kw_fields = false;
-    g.custom_keys = false;
+    g.custom_keys = true; // keyword tag / content keys make Python introduce Field(alias=..) and ConfigDict
     g.max_fields = 3;
     g
+}
+/// DateTime is a trigger type too (TS reviver/replacer, Python datetime + custom (de)serialisers); Kotlin / Swift / Scala
+/// reject it, so only a sixth of the structs get such a field
+fn c12_post(mut items: Vec<Item>) -> Vec<Item> {
+    for it in items.iter_mut() {
+        let seed = it.layout as usize;
+        if seed % 6 != 0 {
+            continue;
+        }
+        if let Kind::Struct { shape: Shape::Named(fs), .. } = &mut it.kind {
+            if fs.iter().any(|f| f.name == "due_at") {
+                continue;
+            }
+            let dt = Ty::DateTime;
+            let ty = match (seed / 6) % 6 {
+                0 => dt,
+                1 => Ty::Opt(Box::new(dt)),
+                2 => Ty::Opt(Box::new(Ty::Opt(Box::new(dt)))),
+                3 => Ty::Vec(Box::new(dt)),
+                4 => Ty::Map(Box::new(Ty::Prim(Prim::String)), Box::new(Ty::Opt(Box::new(dt)))),
+                _ => Ty::Wrap(Wrapper::Box, Box::new(Ty::Opt(Box::new(Ty::Opt(Box::new(dt)))))),
+            };
+            fs.push(Field::new("due_at", ty));
+        }
+    }
+    items
 }
 fn c12_cfgs() -> BoxedStrategy<Cfg> {
     (cfg_strategy(), any::<bool>())
@@ -743,5 +797,5 @@ fn c12_nontrivial(c: &ProgCase) -> bool {
     nt || triggers >= 2
 }
 pub fn c12() -> FactCheck {
-    FactCheck { name: "c12-helpers", gen: c12_gen, langs: &ALL_LANGS, oracle: c12_oracle, nontrivial: c12_nontrivial, labels: no_labels, cfgs: c12_cfgs, exec_python: true, post: no_post }
+    FactCheck { name: "c12-helpers", gen: c12_gen, langs: &ALL_LANGS, oracle: c12_oracle, nontrivial: c12_nontrivial, labels: no_labels, cfgs: c12_cfgs, exec_python: true, post: c12_post }
 }
